@@ -91,6 +91,7 @@ pub fn finish(args: ReportArgs, m: MetaView, cases: &[Params], items: &[(usize, 
     // ---- concrete validation of the encoding on the real suites
     let nval = if args.thorough { 48 } else { 12 }.min(cases.len());
     let mut validated = 0u64;
+    let mut conc_unusable = 0u64;
     let mut val_checks = 0u64;
     let mut conc_failures: Vec<(usize, String, Vec<String>, u64)> = vec![];
     if nval > 0 {
@@ -100,6 +101,11 @@ pub fn finish(args: ReportArgs, m: MetaView, cases: &[Params], items: &[(usize, 
             let order = suites[j % suites.len()];
             let seed = args.seed.wrapping_mul(1000).wrapping_add(j as u64);
             let (c, f, suite) = real_run_on(order, &prop, &cases[ci], seed, &[]);
+            if c == 0 && f.is_empty() {
+                // a concrete run that checked nothing is no validation (e.g. the replay helper did not run)
+                conc_unusable += 1;
+                continue;
+            }
             validated += 1;
             val_checks += c;
             if !f.is_empty() {
@@ -191,6 +197,10 @@ pub fn finish(args: ReportArgs, m: MetaView, cases: &[Params], items: &[(usize, 
     for e in args.extra_inconclusive.iter() {
         inconclusive += 1;
         reported.push(format!("INCONCLUSIVE property={prop}: {e}"));
+    }
+    if conc_unusable > 0 {
+        inconclusive += 1;
+        reported.push(format!("INCONCLUSIVE property={prop}: {conc_unusable} concrete validation run(s) on the real suite checked nothing (replay helper unavailable?)"));
     }
     if truncated > 0 {
         inconclusive += 1;
